@@ -573,13 +573,17 @@ def _cli_path(ctx, tape, rundir, cnarr, table, method, skip_low, skip_outliers, 
     cols = {c: back.data[c].tolist() for c in back.data.columns}
     cols["chromosome"] = [str(c) for c in cols["chromosome"]]
     cols["gene"] = [str(g) for g in cols["gene"]]
-    if (cols["chromosome"] != list(table["columns"]["chromosome"])
-            or cols["start"] != list(table["columns"]["start"])
-            or cols["end"] != list(table["columns"]["end"])):
+    orig = table["columns"]
+    if sorted(zip(cols["chromosome"], cols["start"], cols["end"])) != sorted(
+            zip(orig["chromosome"], orig["start"], orig["end"])):
         raise Violation("T1", f"C03/T1/{method}/cli/input_roundtrip",
                         "the .cnr written from the generated table reads back with other bins")
+    # reading sorts the chromosomes into natural order: re-locate the planted arms
+    where = {(c, s_): i for i, (c, s_) in enumerate(zip(cols["chromosome"], cols["start"]))}
     table2 = dict(table)
     table2["columns"] = cols
+    table2["arms"] = [(c, where[(c, orig["start"][i0])], where[(c, orig["start"][i0])] + (i1 - i0))
+                      for (c, i0, i1) in table["arms"]]
     argv = ["segment", cnr_path, "-m", method, "-o", out_path, "-p", str(processes),
             "--drop-outliers", str(skip_outliers)]
     if skip_low:
